@@ -362,6 +362,9 @@ func (s Exons) Add(exons ...Exon) (Exons, error) {
 	newSlice := append(append(Exons(nil), s...), exons...)
 	sort.Sort(newSlice)
 	for i, e := range newSlice {
+		if e.Len() < 0 {
+			return s, errors.New("exon with negative length")
+		}
 		if i != 0 && e.Start() < newSlice[i-1].End() {
 			return s, errors.New("exons overlap")
 		}
